@@ -56,6 +56,10 @@ type httpScenario struct {
 	Via        string          `json:"via"` // roundtripper | request
 	Server     []attemptScript `json:"server"`
 	CancelCall bool            `json:"cancel_call"` // the caller cancels the request context while an attempt is being served
+	// HoldFirstUpload: the server does not start reading the first attempt's body before a second attempt has arrived (or
+	// 30 ms have passed); with a body larger than the socket buffers the first upload is then still in progress when the
+	// hedge starts its own
+	HoldFirstUpload bool `json:"hold_first_upload,omitempty"`
 }
 
 func bodyBytes(n int) []byte {
@@ -159,6 +163,18 @@ func runHTTP(sc httpScenario) (out httpOut) {
 			a = attemptScript{Status: 200, Mode: "plain", RespSize: 3}
 		}
 		readBody := func() {
+			if sc.HoldFirstUpload && idx == 0 {
+				w := harness.Wait(30 * time.Millisecond)
+				for !w.Expired() {
+					mu.Lock()
+					n := len(got)
+					mu.Unlock()
+					if n >= 2 {
+						break
+					}
+					time.Sleep(100 * time.Microsecond)
+				}
+			}
 			b, err := io.ReadAll(r.Body)
 			mu.Lock()
 			rc.body, rc.bodyErr, rc.bodyDone = b, err, true
@@ -651,6 +667,11 @@ func genHTTP(t *rapid.T) httpScenario {
 			sc.Server[i].Mode = "plain"
 		}
 	}
+	if real && sc.BodyKind != "nil" && sc.BodyKind != "nobody" && sc.BodyKind != "empty" && sc.Method != "GET" && rapid.IntRange(0, 3).Draw(t, "holdFirstUpload") == 0 {
+		// overlapping uploads: every attempt must still deliver the complete original body
+		sc.HoldFirstUpload = true
+		sc.BodySize = 6 << 20
+	}
 	if rapid.IntRange(0, 9).Draw(t, "cancelCall") == 0 && !real {
 		sc.CancelCall = true
 		sc.Server = []attemptScript{{Status: 200, Mode: "slow"}}
@@ -706,7 +727,7 @@ func TestHTTP(t *testing.T) {
 		ctxMerge = (ctxMerge || (sc.ExecCtx != "none" && sc.ExecCtx != "background")) && sc.ReqCtx != "background"
 		nt := (o.attempts >= 2 && sc.BodySize > 0 && sc.BodyKind != "nil" && sc.BodyKind != "nobody") || ctxMerge || strings.Contains(sc.ReqCtx, "values") || strings.Contains(sc.ReqCtx, "deadline")
 		b, _ := json.Marshal(sc)
-		st.Case(string(b), nt, "outcome="+o.class, "body="+sc.BodyKind, "reqctx="+sc.ReqCtx, fmt.Sprintf("merged-context=%v", ctxMerge), fmt.Sprintf("attempts>=2=%v", o.attempts >= 2), "via="+sc.Via)
+		st.Case(string(b), nt, "outcome="+o.class, "body="+sc.BodyKind, "reqctx="+sc.ReqCtx, fmt.Sprintf("merged-context=%v", ctxMerge), fmt.Sprintf("attempts>=2=%v", o.attempts >= 2), "via="+sc.Via, fmt.Sprintf("overlapping-upload=%v", sc.HoldFirstUpload))
 		if nt {
 			st.Sample(string(b), func() any { return sc })
 		}
